@@ -727,6 +727,10 @@ class Engine:
         if isinstance(container, PyObj):
             raise Unsupported('in on %r' % container)
         k = container.ty[0]
+        if k == 'opt':
+            # `x in None` raises TypeError; contract expressions are total (the None case is excluded by the caller)
+            self.prove_internal('membership test on None', z3.Not(T.is_none(container)), 'TypeError')
+            return self.contains(T.opt_val(container), item)
         if k == 'tuple':
             return z3.Or([self.eq(item, x) for x in T.tuple_items(container)] or [z3.BoolVal(False)])
         if k == 'list':
@@ -1275,7 +1279,26 @@ class Engine:
             for t, v in zip(s.targets[0].elts, vals):
                 self.assign(t, v, fr)
             return
-        v = self.eval(s.value, fr)
+        v = None
+        if isinstance(s.value, ast.List) and s.value.elts and len(s.targets) == 1 and isinstance(s.targets[0], ast.Name):
+            # a list literal assigned to a local whose element type the sidecar declares: each element is taken at that
+            # type (an Optional element must be non-None here - it is, when the literal sits behind the test for it)
+            c = self.contract_for_frame(fr)
+            lt = (c.extra.get('locals', {}) if c is not None else {}).get(s.targets[0].id)
+            lty = T.parse_ty(lt) if lt is not None else None
+            if lty is not None and lty[0] == 'list':
+                items = []
+                for e in s.value.elts:
+                    x = self.val(self.eval(e, fr))
+                    if isinstance(x, V) and x.ty[0] == 'opt' and lty[1][0] != 'opt':
+                        if not self.branch(z3.Not(T.is_none(x))):
+                            raise Unsupported('None stored in %s, declared %s' % (s.targets[0].id, lt))
+                        x = T.opt_val(x)
+                    items.append(T.coerce(x, lty[1]))
+                units = [z3.Unit(i.t) for i in items]
+                v = V(lty, units[0] if len(units) == 1 else z3.Concat(*units))
+        if v is None:
+            v = self.eval(s.value, fr)
         for tgt in s.targets:
             self.assign(tgt, v, fr)
 
